@@ -12,6 +12,10 @@ Reads
     (`read_register`, `write_register`, `register_address`, codecs) against the shapes
     the hand-written Lean model (`Model/RegMap.lean`) mirrors.
 
+Pinned texts are compared up to the names of parameters / locals (alpha-renaming), the text
+of string literals and the syntax of generic bounds; unknown PRIVATE functions nothing in the
+file uses are accepted as dead code.  Everything else is strict:
+
 Lightweight (regex + brace matching), but it FAILS LOUDLY: any public accessor whose body is
 neither one of the uniform shapes nor in the explicit HAND list, any helper whose text
 changed, any unknown type or constant makes the run exit non-zero naming the construct;
@@ -62,7 +66,24 @@ def strip_comments(src):
     return "".join(out)
 
 
+def mask_strings(s):
+    """replace the contents of every string literal by <msg>: message texts are not behaviour"""
+    out, i, n = [], 0, len(s)
+    while i < n:
+        if s[i] == '"':
+            j = i + 1
+            while j < n and s[j] != '"':
+                j += 2 if s[j] == "\\" else 1
+            out.append('"<msg>"')
+            i = j + 1
+        else:
+            out.append(s[i])
+            i += 1
+    return "".join(out)
+
+
 def norm(s):
+    s = mask_strings(s)
     s = re.sub(r"\s+", " ", s).strip()
     s = re.sub(r"\s*\.\s*(?=[A-Za-z_])", ".", s)      # method chains broken over lines
     s = re.sub(r",\s*\)", ")", s)                      # trailing commas
@@ -104,7 +125,7 @@ def block_after(src, header_re, what):
 def functions(block):
     """[(is_pub, name, signature, body)] of the fns directly inside an impl block."""
     out, i = [], 0
-    for m in re.finditer(r"(?:(pub)\s+)?fn\s+(\w+)", block):
+    for m in re.finditer(r"(?:(pub(?:\s*\([^)]*\))?)\s+)?(?:(?:const|async|unsafe)\s+)*fn\s+(\w+)", block):
         if m.start() < i:
             continue
         # body starts at the first '{' outside parentheses / angle brackets of the signature
@@ -121,7 +142,8 @@ def functions(block):
                 break
             j += 1
         e = match_brace(block, j)
-        out.append((m.group(1) == "pub", m.group(2), norm("fn " + block[m.start(2):j]), norm(block[j + 1:e - 1])))
+        vis = "private" if m.group(1) is None else ("pub" if m.group(1) == "pub" else "restricted")
+        out.append((vis, m.group(2), norm("fn " + block[m.start(2):j]), norm(block[j + 1:e - 1])))
         i = e
     return out
 
@@ -213,6 +235,18 @@ DECODER_TEMPLATES = {
     "GenICamFileInfo.compression_type": "let raw = (self.0 >> <raw.shift>_i32) & <raw.mask>; match raw { <ARMS> }",
     "ParseBytes for u3v::BusSpeed": "use u3v::BusSpeed::{FullSpeed, HighSpeed, LowSpeed, SuperSpeed, SuperSpeedPlus}; let raw = u32::parse_bytes(bytes)?; let speed = match raw { <ARMS> }; Ok(speed)",
 }
+_GET = "fn f<Ctrl: DeviceControl + ?Sized>(&self, device: &mut Ctrl) -> "
+TEMPLATE_SIGS = {
+    "Abrm.gencp_version": _GET + "ControlResult<semver::Version>",
+    "Sbrm.u3v_version": _GET + "ControlResult<semver::Version>",
+    "ManifestEntry.genicam_file_version": _GET + "ControlResult<semver::Version>",
+    "Sirm.payload_size_alignment": _GET + "ControlResult<usize>",
+    "Sirm.is_stream_enable": _GET + "ControlResult<bool>",
+    "GenICamFileInfo.schema_version": "fn f(&self) -> semver::Version",
+    "GenICamFileInfo.file_type": "fn f(&self) -> ControlResult<GenICamFileType>",
+    "GenICamFileInfo.compression_type": "fn f(&self) -> ControlResult<CompressionType>",
+    "ParseBytes for u3v::BusSpeed": "fn f(bytes: &[u8]) -> ControlResult<Self>",
+}
 # order in which the fields of a decoder are emitted
 FIELD_ORDER = {
     "Abrm.gencp_version": ["major", "minor"], "Sbrm.u3v_version": ["major", "minor"],
@@ -259,7 +293,27 @@ HAND_SIGS = {
     "ManifestEntry.sha1_hash": "<Ctrl: DeviceControl + ?Sized>(&self, device: &mut Ctrl) -> ControlResult<Option<[u8; 20]>>",
 }
 
-# private helpers: exact normalised bodies (per struct) the model's address/IO plumbing mirrors
+_RD = "fn f<T, Ctrl: DeviceControl + ?Sized>(&self, device: &mut Ctrl, register: (u64, u16)) -> ControlResult<T>"
+_WR = "fn f<Ctrl: DeviceControl + ?Sized>(&self, device: &mut Ctrl, register: (u64, u16), data: impl DumpBytes) -> ControlResult<()>"
+HELPER_SIGS = {
+    ("Abrm", "read_register"): _RD, ("Abrm", "write_register"): _WR, ("Sbrm", "read_register"): _RD,
+    ("Sirm", "read_register"): _RD, ("Sirm", "write_register"): _WR,
+    ("ManifestTable", "read_register"): _RD, ("ManifestEntry", "read_register"): _RD,
+}
+FREE_FN_SIGS = {
+    "register_address": "fn f(base: u64, offset: u64) -> ControlResult<u64>",
+    "read_register": "fn f<T, Ctrl: DeviceControl + ?Sized>(device: &mut Ctrl, addr: u64, len: u16) -> ControlResult<T>",
+}
+CODEC_SIGS = {
+    "ParseBytes for String": "fn f(bytes: &[u8]) -> ControlResult<Self>",
+    "ParseBytes for Duration": "fn f(bytes: &[u8]) -> ControlResult<Self>",
+    "DumpBytes for &str": "fn f(&self, buf: &mut [u8]) -> ControlResult<()>",
+    "DumpBytes for DeviceConfiguration": "fn f(&self, buf: &mut [u8]) -> ControlResult<()>",
+    "<T> DumpBytes for &T where T: DumpBytes,": "fn f(&self, buf: &mut [u8]) -> ControlResult<()>",
+}
+
+# private helpers: bodies (per struct) the model's address/IO plumbing mirrors; compared up to
+# local names and message texts
 HELPER_BODIES = {
     ("Abrm", "read_register"): "read_register(device, register.0, register.1)",
     ("Abrm", "write_register"): "let (addr, len) = register; let mut buf = vec![0; len as usize]; data.dump_bytes(&mut buf)?; device.write(addr, &buf)",
@@ -364,9 +418,100 @@ def split_top(text, sep=","):
     return out
 
 
-def match_template(name, body):
+IDENT = r"[a-z_][a-z0-9_]*"
+
+
+def all_params(sig):
+    """[(name, type)] of all parameters except the self receiver (the device included)."""
+    inner = sig[sig.index("(", sig.index(">(") + 1 if ">(" in sig else 0) + 1:]
+    depth, cur, parts = 0, "", []
+    for c in inner:
+        if c in "(<[":
+            depth += 1
+        elif c in ")>]":
+            if depth == 0:
+                break
+            depth -= 1
+        if c == "," and depth == 0:
+            parts.append(cur)
+            cur = ""
+        else:
+            cur += c
+    parts.append(cur)
+    out = []
+    for q in [x.strip() for x in parts if x.strip()]:
+        if q in ("&self", "self", "&mut self", "mut self"):
+            continue
+        n, t = q.split(":", 1)
+        out.append((n.strip().replace("mut ", ""), t.strip()))
+    return out
+
+
+def sig_shape(sig):
+    """what a signature means for the model: receiver, parameter types in order, return type"""
+    recv = re.search(r"\((&mut self|&self|mut self|self)\b", sig)
+    ret = re.search(r"->\s*(.+?)(?:\s+where\b.*)?$", sig)
+    return (recv.group(1) if recv else "-", tuple(t for _, t in all_params(sig)), ret.group(1).strip() if ret else "()")
+
+
+def alpha(sig, body):
+    """Rename parameters (P1, P2, …, in declaration order) and local binders — `let`, closure
+    parameters, identifier match-arm patterns — (L1, L2, …, in order of first binding) so that
+    pinned texts are compared up to the choice of local names.  Returns (body', {orig: canon})."""
+    cmap = {}
+    for i, (n, _) in enumerate(all_params(sig)):
+        cmap.setdefault(n, f"P{i + 1}__")
+    found = []
+    for m in re.finditer(r"\blet (?:mut )?\(?((?:mut )?%s(?:, (?:mut )?%s)*)\)?\s*(?::[^=;]+)?=[^=]" % (IDENT, IDENT), body):
+        found += [(m.start(), x.replace("mut ", "").strip()) for x in m.group(1).split(",")]
+    for m in re.finditer(r"(?<![|\w])\|([^|]*)\|", body):
+        for q in m.group(1).split(","):
+            q = q.split(":")[0].replace("&", "").replace("mut ", "").strip()
+            if re.fullmatch(IDENT, q):
+                found.append((m.start(), q))
+    for m in re.finditer(r"(?<![\w.:])(%s) => " % IDENT, body):
+        found.append((m.start(), m.group(1)))
+    k = 0
+    for _, n in sorted(found):
+        if n in ("_", "self", "true", "false") or n in cmap:
+            continue
+        k += 1
+        cmap[n] = f"L{k}__"
+    out = body
+    for n, c in cmap.items():
+        # not fields / methods (`.x`), not template placeholders (`<x.shift>`), not paths (`x::`), not macros
+        out = re.sub(r"(?<![\w.<$])%s(?!\w|::|!|\.(?:shift|mask)>)" % re.escape(n), c, out)
+    return out, cmap
+
+
+def canon_fn(sig, body):
+    b, _ = alpha(sig, body)
+    return sig_shape(sig), b
+
+
+def same_fn(what, kind, sig, body, pinned_sig, pinned_body):
+    """refuse unless (sig, body) equals the pinned function up to local names, string texts, generics syntax"""
+    if canon_fn(sig, body) != canon_fn(norm(pinned_sig), norm(pinned_body)):
+        shape, b = canon_fn(sig, body)
+        pshape, pb = canon_fn(norm(pinned_sig), norm(pinned_body))
+        if shape != pshape:
+            refuse(f"{what}: {kind} signature changed; the model mirrors (receiver, parameter types, return type)\n    {pshape}\n  but the source has\n    {shape}")
+        refuse(f"{what}: {kind} body changed (compared up to local names and message texts); the model mirrors\n    {pb}\n  but the source has\n    {b}")
+
+
+def occurrences(src, name):
+    """uses of identifier `name` in the file other than its own definition(s)"""
+    return len(re.findall(r"\b%s\b" % re.escape(name), src)) - len(re.findall(r"\bfn\s+%s\b" % re.escape(name), src))
+
+
+def match_template(name, sig, body):
     """Fullmatch `body` against DECODER_TEMPLATES[name]; returns (groupdict, arms-text or None)."""
-    template = DECODER_TEMPLATES[name]
+    template = norm(DECODER_TEMPLATES[name])
+    tsig = norm(TEMPLATE_SIGS[name])
+    if sig_shape(sig) != sig_shape(tsig):
+        refuse(f"{name}: decoder signature changed; the model mirrors\n    {sig_shape(tsig)}\n  but the source has\n    {sig_shape(sig)}")
+    template, _ = alpha(tsig, template)
+    body, _ = alpha(sig, body)
     rx = ""
     for part in re.split(r"(<[A-Za-z_.]+>)", template):
         if part == "<REG>":
@@ -381,7 +526,7 @@ def match_template(name, body):
             rx += re.escape(part)
     m = re.fullmatch(rx, body)
     if not m:
-        refuse(f"{name}: decoder body changed; the model mirrors exactly the shape\n    {template}\n  but the source has\n    {body}")
+        refuse(f"{name}: decoder body changed (compared up to local names and message texts); the model mirrors the shape\n    {template}\n  but the source has\n    {body}")
     return m.groupdict()
 
 
@@ -399,6 +544,9 @@ def fields_of(name, gd):
 def arms_of(name, arms_text):
     """[(literal, variant)]: every arm but the last is exactly `LIT => value`, the last the pinned fallback."""
     value_rx, fallback = ARM_SHAPES[name]
+    # the arms come out of the alpha-renamed body: rename the pinned fallback the same way
+    fallback, _ = alpha(norm(TEMPLATE_SIGS[name]), norm(DECODER_TEMPLATES[name]).replace("<ARMS>", norm(fallback)))
+    fallback = split_top(re.search(r"match \w+ \{ (.*) \}", fallback).group(1))[-1]
     arms = split_top(arms_text)
     if not arms or arms[-1] != fallback:
         refuse(f"{name}: last match arm is not the pinned fallback\n    {fallback}\n  but\n    {arms[-1] if arms else '<none>'}")
@@ -469,7 +617,8 @@ def top_level_items(src):
                     break
                 j += 1
             e = match_brace(src, j)
-            vis = src[:m.start()].rstrip().endswith("pub") or re.search(r"pub(\([^)]*\))?\s*$", src[:m.start()]) is not None
+            vm = re.search(r"\b(pub(?:\s*\([^)]*\))?)\s+(?:(?:const|async|unsafe)\s+)*$", src[:m.start()])
+            vis = "private" if not vm else ("pub" if vm.group(1) == "pub" else "restricted")
             items["fn"].append((vis, norm(src[m.start():j]), norm(src[j + 1:e - 1])))
             i = e
         elif kw == "mod":
@@ -504,7 +653,7 @@ def top_level_items(src):
 
 def parse_accessors(src, tables):
     src = strip_comments(src)
-    rows, hand, fields, pub_names = [], [], [], []
+    rows, hand, fields, pub_names, ignored = [], [], [], [], []
     items = top_level_items(src)
 
     # ---- nothing in the file may escape: modules, macros, free fns, impl blocks are all accounted for
@@ -526,14 +675,17 @@ def parse_accessors(src, tables):
     for vis, sig, body in items["fn"]:
         fn = re.match(r"fn (\w+)", sig).group(1)
         if fn not in FREE_FN_BODIES:
-            refuse(f"unknown free function `{fn}` (the model does not know it): `{sig[:120]}`")
-        if vis:
+            # dead private code cannot change what an accessor does
+            if vis == "private" and occurrences(src, fn) == 0:
+                ignored.append(f"fn {fn}")
+                continue
+            refuse(f"unknown free function `{fn}` (visibility {vis}, {occurrences(src, fn)} use(s)); the model does not know it: `{sig[:120]}`")
+        if vis != "private":
             refuse(f"free function `{fn}` became public")
         if fn in seen_free:
             refuse(f"free function `{fn}` defined twice")
         seen_free.add(fn)
-        if body != FREE_FN_BODIES[fn]:
-            refuse(f"free function `{fn}` changed; the model mirrors\n    {FREE_FN_BODIES[fn]}\n  but the source has\n    {body}")
+        same_fn(f"free function `{fn}`", "helper", sig, body, FREE_FN_SIGS[fn], FREE_FN_BODIES[fn])
     for fn in FREE_FN_BODIES:
         if fn not in seen_free:
             refuse(f"free function `{fn}` not found")
@@ -577,18 +729,25 @@ def parse_accessors(src, tables):
             cap_field[(st, n)] = t
 
     for st, (base, regmod, _) in IMPLS.items():
-        for is_pub, fn, sig, body in inherent[st]:
+        for vis, fn, sig, body in inherent[st]:
             name = f"{st}.{fn}"
-            if not is_pub:
-                want = HELPER_BODIES.get((st, fn))
-                if want is None:
-                    refuse(f"{name}: unexpected private helper (the model does not know it)")
-                if body != want:
-                    refuse(f"{name}: private helper body changed; the model mirrors\n    {want}\n  but the source has\n    {body}")
-                continue
+            if vis != "pub":
+                if (st, fn) in HELPER_BODIES:
+                    if vis != "private":
+                        refuse(f"{name}: helper is no longer private (`{vis}`)")
+                    same_fn(name, "private helper", sig, body, HELPER_SIGS[(st, fn)], HELPER_BODIES[(st, fn)])
+                    continue
+                # dead private code cannot change what an accessor does
+                if vis == "private" and occurrences(src, fn) == 0:
+                    ignored.append(name)
+                    continue
+                refuse(f"{name}: unknown helper (visibility {vis}, {occurrences(src, fn)} use(s) in the file); the model does not know it")
             pub_names.append(name)
-            std_get_sig = re.fullmatch(r"fn \w+<Ctrl: DeviceControl \+ \?Sized>\(&self, device: &mut Ctrl\) -> .+", sig)
-            std_set_sig = re.fullmatch(r"fn \w+<Ctrl: DeviceControl \+ \?Sized>\(&self, device: &mut Ctrl(, \w+: [^,()]+)?\) -> ControlResult<\(\)>", sig)
+            recv, ptypes, ret = sig_shape(sig)
+            cbody, cmap = alpha(sig, body)
+            ctrl_bound = re.search(r"\bCtrl: DeviceControl \+ \?Sized\b", sig) is not None
+            is_get_sig = recv == "&self" and ptypes == ("&mut Ctrl",) and ctrl_bound
+            is_set_sig = recv == "&self" and len(ptypes) in (1, 2) and ptypes[0] == "&mut Ctrl" and ctrl_bound and ret == "ControlResult<()>"
 
             def reg_of(mod, const):
                 if regmod is not None and mod != regmod:
@@ -606,16 +765,12 @@ def parse_accessors(src, tables):
             if name in HAND:
                 tag = HAND[name]
                 if name in HAND_BODIES:
-                    if body != HAND_BODIES[name]:
-                        refuse(f"{name}: hand-modelled accessor body changed; the model mirrors\n    {HAND_BODIES[name]}\n  but the source has\n    {body}")
-                    want_sig = f"fn {fn}" + HAND_SIGS[name]
-                    if sig != want_sig:
-                        refuse(f"{name}: signature changed; the model mirrors\n    {want_sig}\n  but the source has\n    {sig}")
+                    same_fn(name, "hand-modelled accessor", sig, body, "fn f" + HAND_SIGS[name], HAND_BODIES[name])
                 regs = sorted(set(re.findall(REG, body)))
                 for mod, const in regs:
                     reg_of(mod, const)
                 if tag is None:
-                    calls = sorted(set(re.findall(r"self\.(\w+)\(device\)", body)) - {"read_register", "write_register"})
+                    calls = sorted(set(re.findall(r"self\.(\w+)\(P1__\)", cbody)) - {"read_register", "write_register"})
                     hand.append((name, base, regs, [f"{st}.{c}" for c in calls]))
                     continue
                 if tag == "sha1":
@@ -626,65 +781,59 @@ def parse_accessors(src, tables):
                         refuse(f"{name}: reads into a [u8; 20] but manifest_entry::SHA1_HASH has length {sha_len}")
                     rows.append((name, base, "get", "manifest_entry", "SHA1_HASH", "sha1", None))
                     continue
-                if not std_get_sig:
-                    refuse(f"{name}: decoder signature is not `(&self, device: &mut Ctrl) -> …`: `{sig}`")
-                gd = match_template(name, body)
+                if not ctrl_bound:
+                    refuse(f"{name}: `Ctrl` is not bound by `DeviceControl + ?Sized`: `{sig}`")
+                gd = match_template(name, sig, body)
                 mod, const = reg_of(gd["REGMOD"], gd["REGCONST"])
                 fields += fields_of(name, gd)
-                want_ret = {"ver1616": "ControlResult<semver::Version>", "fileVer": "ControlResult<semver::Version>",
-                            "align": "ControlResult<usize>", "bit0": "ControlResult<bool>"}[tag]
-                if ret_type(sig, name) != want_ret:
-                    refuse(f"{name}: return type `{ret_type(sig, name)}`, expected `{want_ret}`")
                 rows.append((name, base, "get", mod, const, tag, None))
                 continue
 
-            # ---- uniform shapes
-            m = re.fullmatch(r"self\.read_register\(device, " + REG + r"\)", body)
+            # ---- uniform shapes (on the alpha-renamed body: P1__ = the device, P2__ = the argument)
+            m = re.fullmatch(r"self\.read_register\(P1__, " + REG + r"\)", cbody)
             if m:
-                rt = re.fullmatch(r"ControlResult<(.+)>", ret_type(sig, name))
-                if not std_get_sig or not rt or rt.group(1) not in RET_TY:
+                rt = re.fullmatch(r"ControlResult<(.+)>", ret)
+                if not is_get_sig or not rt or rt.group(1) not in RET_TY:
                     refuse(f"{name}: getter with unknown signature / return type `{sig}`")
                 mod, const = reg_of(*m.groups())
                 rows.append((name, base, "get", mod, const, RET_TY[rt.group(1)], None))
                 continue
-            m = re.fullmatch(r"if self\.(\w+)\.(\w+)\(\) \{ self\.read_register\(device, " + REG + r"\)\.map\(Some\) \} else \{ Ok\(None\) \}", body)
+            m = re.fullmatch(r"if self\.(\w+)\.(\w+)\(\) \{ self\.read_register\(P1__, " + REG + r"\)\.map\(Some\) \} else \{ Ok\(None\) \}", cbody)
             if m:
-                rt = re.fullmatch(r"ControlResult<Option<(.+)>>", ret_type(sig, name))
-                if not std_get_sig or not rt or rt.group(1) not in RET_TY:
+                rt = re.fullmatch(r"ControlResult<Option<(.+)>>", ret)
+                if not is_get_sig or not rt or rt.group(1) not in RET_TY:
                     refuse(f"{name}: guarded getter with unknown signature / return type `{sig}`")
                 field, pred, mod, const = m.groups()
                 mod, const = reg_of(mod, const)
                 rows.append((name, base, "get", mod, const, RET_TY[rt.group(1)], guard_of(field, pred)))
                 continue
-            m = re.fullmatch(r"(?:let value = (\d+)_u32; )?self\.write_register\(device, " + REG + r", (\w+)\)", body)
+            m = re.fullmatch(r"(?:let L1__ = (\d+)_u32; )?self\.write_register\(P1__, " + REG + r", (\w+)\)", cbody)
             if m:
-                if not std_set_sig:
+                if not is_set_sig:
                     refuse(f"{name}: setter with unknown signature `{sig}`")
                 const_v, mod, const, argname = m.groups()
                 mod, const = reg_of(mod, const)
-                ps = params(sig)
                 if const_v is not None or re.fullmatch(r"\d+_u32", argname):
-                    if const_v is not None and argname != "value":
-                        refuse(f"{name}: constant setter passes `{argname}`, not `value`")
-                    if ps:
-                        refuse(f"{name}: constant setter with parameters {ps}")
+                    if const_v is not None and argname != "L1__":
+                        refuse(f"{name}: constant setter does not pass its constant")
+                    if len(ptypes) != 1:
+                        refuse(f"{name}: constant setter with extra parameters {ptypes[1:]}")
                     v = int(const_v) if const_v is not None else intlit(argname)
                     rows.append((name, base, f"setConst {v}", mod, const, "u32", None))
                 else:
-                    if len(ps) != 1 or ps[0][0] != argname or ps[0][1] not in ARG_TY:
-                        refuse(f"{name}: setter argument `{argname}` is not its single parameter of a known type: {ps}")
-                    rows.append((name, base, "set", mod, const, ARG_TY[ps[0][1]], None))
+                    if len(ptypes) != 2 or argname != "P2__" or ptypes[1] not in ARG_TY:
+                        refuse(f"{name}: setter does not pass its single parameter of a known type: parameters {ptypes}, passes `{argname}`")
+                    rows.append((name, base, "set", mod, const, ARG_TY[ptypes[1]], None))
                 continue
-            m = re.fullmatch(r"if !self\.(\w+)\.(\w+)\(\) \{ return Ok\(\(\)\); \} self\.write_register\(device, " + REG + r", (\w+)\)", body)
+            m = re.fullmatch(r"if !self\.(\w+)\.(\w+)\(\) \{ return Ok\(\(\)\); \} self\.write_register\(P1__, " + REG + r", (\w+)\)", cbody)
             if m:
-                if not std_set_sig:
+                if not is_set_sig:
                     refuse(f"{name}: setter with unknown signature `{sig}`")
                 field, pred, mod, const, argname = m.groups()
                 mod, const = reg_of(mod, const)
-                ps = params(sig)
-                if len(ps) != 1 or ps[0][0] != argname or ps[0][1] not in ARG_TY:
-                    refuse(f"{name}: setter argument `{argname}` is not its single parameter of a known type: {ps}")
-                rows.append((name, base, "set", mod, const, ARG_TY[ps[0][1]], guard_of(field, pred)))
+                if len(ptypes) != 2 or argname != "P2__" or ptypes[1] not in ARG_TY:
+                    refuse(f"{name}: setter does not pass its single parameter of a known type: parameters {ptypes}, passes `{argname}`")
+                rows.append((name, base, "set", mod, const, ARG_TY[ptypes[1]], guard_of(field, pred)))
                 continue
             refuse(f"{name}: accessor body matches no uniform shape and is not in the HAND list of tools/gen_regmap.py:\n    {body[:300]}")
 
@@ -700,13 +849,14 @@ def parse_accessors(src, tables):
             refuse(f"numeric codec for `{t}` missing or duplicated")
     for what, want in CODEC_BODIES.items():
         fns = trait_impls[what]
-        if len(fns) != 1 or fns[0][3] != want:
-            refuse(f"`impl {what}` changed; the model mirrors\n    {want}\n  but the source has\n    {fns[0][3] if fns else '<nothing>'}")
+        if len(fns) != 1:
+            refuse(f"`impl {what}`: expected exactly one method")
+        same_fn(f"`impl {what}`", "codec", fns[0][2], fns[0][3], CODEC_SIGS[what], want)
 
     newtypes = []
     for t in NEWTYPES:
         fns = trait_impls[f"ParseBytes for {t}"]
-        nm = re.fullmatch(r"Ok\(Self\((u\d+)::parse_bytes\(bytes\)\?\)\)", fns[0][3]) if len(fns) == 1 else None
+        nm = re.fullmatch(r"Ok\(Self\((u\d+)::parse_bytes\(P1__\)\?\)\)", alpha(fns[0][2], fns[0][3])[0]) if len(fns) == 1 else None
         if not nm:
             refuse(f"`impl ParseBytes for {t}` is not a newtype over a numeric codec: `{fns[0][3] if fns else ''}`")
         if not re.search(r"pub\s+struct\s+" + t + r"\(" + nm.group(1) + r"\)\s*;", src):
@@ -718,13 +868,18 @@ def parse_accessors(src, tables):
     fns = trait_impls["ParseBytes for u3v::BusSpeed"]
     if len(fns) != 1:
         refuse("`impl ParseBytes for u3v::BusSpeed`: expected exactly `parse_bytes`")
-    gd = match_template("ParseBytes for u3v::BusSpeed", fns[0][3])
+    gd = match_template("ParseBytes for u3v::BusSpeed", fns[0][2], fns[0][3])
     speeds = arms_of("ParseBytes for u3v::BusSpeed", gd["ARMS"])
 
     # ---- capability / configuration bits
     capbits, cfgops = [], []
     for st in ("DeviceCapability", "U3VCapablitiy", "DeviceConfiguration"):
-        for is_pub, fn, sig, body in inherent[st]:
+        for vis, fn, sig, body in inherent[st]:
+            if vis == "private" and occurrences(src, fn) == 0:
+                ignored.append(f"{st}.{fn}")
+                continue
+            if vis != "pub":
+                refuse(f"{st}.{fn}: non-public method that is used in the file (visibility {vis}); the model does not know it")
             m = re.fullmatch(r"is_bit_set!\(&?self\.0, (\d+)_i32\)", body)
             if m and sig == f"fn {fn}(self) -> bool":
                 capbits.append((st, fn, int(m.group(1))))
@@ -737,11 +892,14 @@ def parse_accessors(src, tables):
 
     # ---- GenICamFileInfo: bodies pinned
     enums = {}
-    for is_pub, fn, sig, body in inherent["GenICamFileInfo"]:
+    for vis, fn, sig, body in inherent["GenICamFileInfo"]:
         name = f"GenICamFileInfo.{fn}"
-        if name not in DECODER_TEMPLATES:
-            refuse(f"{name}: unknown method (teach the model)")
-        gd = match_template(name, body)
+        if vis == "private" and occurrences(src, fn) == 0:
+            ignored.append(name)
+            continue
+        if name not in DECODER_TEMPLATES or vis != "pub":
+            refuse(f"{name}: unknown method (visibility {vis}); teach the model")
+        gd = match_template(name, sig, body)
         fields += fields_of(name, gd)
         if fn in ("file_type", "compression_type"):
             enums[fn] = arms_of(name, gd["ARMS"])
@@ -769,7 +927,7 @@ def parse_accessors(src, tables):
     pairs.sort()
 
     return dict(rows=rows, hand=hand, fields=fields, newtypes=newtypes, speeds=speeds, capbits=capbits,
-                cfgops=cfgops, enums=enums, pairs=pairs)
+                cfgops=cfgops, enums=enums, pairs=pairs, ignored=ignored)
 
 
 # --------------------------------------------------------------------------- emit
@@ -785,6 +943,8 @@ def emit(tables, acc, hashes):
     w("GENERATED by tools/gen_regmap.py from /repo — do not edit; re-emitted on every `./check C13`.")
     for k, v in hashes.items():
         w(f"  source {k} sha256 {v}")
+    if acc["ignored"]:
+        w("  unused private functions accepted without a model (dead code): " + ", ".join(acc["ignored"]))
     w("-/")
     w("import CamVerif.Model.RegMapTypes")
     w("namespace CamVerif.Gen.RegMap")
